@@ -42,6 +42,8 @@ func runC01(c *RunCtx) {
 		ExploreOpts{Base: 3, Noise: c.Q(20, 100), K: c.Q(2, 4), Funcs: anchoredOr(c, dispatchFuncs), Pairs: c.Q(20, 120), MaxCases: c.Q(200, 4000)})
 	reaperPrograms(c, 32, 160)
 	tuneRacePrograms(c, 24, 120)
+	batchPrograms(c, 48, 240)
+	bindStormPrograms(c, 16, 80)
 	runC01Burst(c)
 }
 
@@ -53,6 +55,7 @@ func runC03(c *RunCtx) {
 	notifyPrograms(c, 40, 200)
 	stormPrograms(c, 32, 160)
 	batchPrograms(c, 64, 300)
+	bindStormPrograms(c, 32, 160)
 }
 
 func runC05(c *RunCtx) {
@@ -100,6 +103,7 @@ func runC17(c *RunCtx) {
 		ExploreOpts{Base: 3, K: c.Q(3, 6), Funcs: anchoredOr(c, []string{"goEventLoop", "processNextJob", "Restart", "Stop", "start", "closeChannels"}), Pairs: c.Q(30, 150), MaxCases: c.Q(200, 3000)})
 	gatePrograms(c, "gate", 32, 160, gateBias{Adapters: true, MaxOps: 12, Expiry: 10, Tune: true, Life: true}, gateOpts(c))
 	lenPrograms(c, 16, 64)
+	bindStormPrograms(c, 32, 160)
 	batchPrograms(c, 48, 300)
 	for v := 0; v < c.Q(32, 200); v++ {
 		c.Program(fmt.Sprintf("ack/%d", v), func(p *Prog) {
@@ -109,7 +113,17 @@ func runC17(c *RunCtx) {
 	}
 }
 
-func runC01Burst(c *RunCtx) { burstPrograms(c, 48, 160); purgeBurstPrograms(c, 8, 32) }
+func runC01Burst(c *RunCtx) {
+	burstPrograms(c, 48, 160)
+	purgeBurstPrograms(c, 8, 32)
+	// adapter-backed queues with transient faults and bad entries: everything accepted still runs once
+	for v := 0; v < c.Q(48, 300); v++ {
+		c.Program(fmt.Sprintf("ack/%d", v), func(p *Prog) {
+			cfg := drawAck(p.Rng)
+			p.Explore(func(pl Plan) *Result { return epAck(c, cfg) }, ExploreOpts{Base: 2, K: 1, Funcs: ledgerFuncs, MaxCases: c.Q(20, 200)})
+		})
+	}
+}
 
 func gatePrograms(c *RunCtx, fam string, nq, nt int, b gateBias, o ExploreOpts) {
 	for v := 0; v < c.Q(nq, nt); v++ {
@@ -128,16 +142,18 @@ func runC02(c *RunCtx) {
 	richPrograms(c, "restarts", 32, 160, richBias{MaxJobs: 8, Cancel: 0, Purge: 0, Script: 8, Batches: 0, Waiters: 0, Samplers: false, Expiry: 0, Conc: []int{1, 1, 2, 3}, RestartHeavy: true},
 		ExploreOpts{Base: 3, K: c.Q(3, 6), Funcs: anchoredOr(c, []string{"goEventLoop", "processNextJob", "Restart", "Stop", "start", "closeChannels"}), Pairs: c.Q(30, 150), MaxCases: c.Q(200, 3000)})
 	gatePrograms(c, "gate", 64, 300, gateBias{Adapters: true, MaxOps: 14, Expiry: 20, Tune: true, Life: true}, gateOpts(c))
+	tuneStormPrograms(c, 48, 240)
 }
 
 func runC04(c *RunCtx) {
 	gatePrograms(c, "gate", 32, 160, gateBias{Adapters: true, MaxOps: 16, Expiry: 0, Tune: false, Life: true}, gateOpts(c))
 	queuePrograms(c)
-	burstPrograms(c, 12, 60)
+	burstPrograms(c, 24, 96)
 }
 
 func runC18(c *RunCtx) {
 	gatePrograms(c, "gate", 48, 240, gateBias{Adapters: false, MaxOps: 14, Expiry: 60, Tune: true, Life: true}, gateOpts(c))
 	reaperPrograms(c, 32, 160)
 	tuneRacePrograms(c, 32, 160)
+	cyclesPrograms(c, 48, 240)
 }
